@@ -301,3 +301,52 @@ def truthiness_uses(f, name):
         elif isinstance(x, ast.UnaryOp) and isinstance(x.op, ast.Not) and isinstance(x.operand, ast.Name) and x.operand.id == name:
             out.append(x)
     return out
+
+
+# ------------------------------------------------------------------ deleting list positions in ascending order
+def ascending_index_deletion(ctx, f):
+    """[(for node, text)] loops `for i in <ascending positions of L>: del L[i]` (or L.pop(i)): every deletion shifts the
+    later positions, so the wrong elements go (or IndexError) as soon as two positions are deleted."""
+    from ..engine import deref
+    out = []
+
+    def base(e):
+        e = deref(f, e)
+        return U(e)
+    for st in walk_shallow(f.node):
+        if not (isinstance(st, ast.For) and isinstance(st.target, ast.Name)):
+            continue
+        it = st.iter
+        if isinstance(it, ast.Call) and fn_name(it) == "reversed":
+            continue
+        if isinstance(it, ast.Call) and fn_name(it) == "sorted" and U(kwarg(it, "reverse")) == "True":
+            continue
+        src = deref(f, it)
+        seqs = set()
+        # positions taken from enumerate(L) / range(len(L)) in their natural (ascending) order
+        for y in ast.walk(src):
+            if isinstance(y, ast.Call) and fn_name(y) == "enumerate" and y.args:
+                seqs.add(base(y.args[0]))
+            if isinstance(y, ast.Call) and fn_name(y) == "range" and y.args and isinstance(y.args[-1 if len(y.args) < 3 else 1], ast.Call) \
+                    and fn_name(y.args[-1 if len(y.args) < 3 else 1]) == "len" and len(y.args) < 3:
+                seqs.add(base(y.args[-1].args[0]))
+        if isinstance(src, ast.Call) and fn_name(src) in ("reversed",):
+            continue
+        if isinstance(src, ast.Call) and fn_name(src) == "sorted" and U(kwarg(src, "reverse")) == "True":
+            continue
+        if isinstance(src, ast.Subscript) and isinstance(src.slice, ast.Slice) and src.slice.step is not None and U(src.slice.step) == "-1":
+            continue
+        if not seqs:
+            continue
+        body = ast.Module(body=st.body, type_ignores=[])
+        for x in walk_shallow(body):
+            tgt = None
+            if isinstance(x, ast.Delete):
+                for t in x.targets:
+                    if isinstance(t, ast.Subscript) and U(t.slice) == st.target.id:
+                        tgt = t.value
+            if isinstance(x, ast.Call) and isinstance(x.func, ast.Attribute) and x.func.attr == "pop" and x.args and U(x.args[0]) == st.target.id:
+                tgt = x.func.value
+            if tgt is not None and base(tgt) in seqs:
+                out.append((st, U(x)[:60]))
+    return out
